@@ -183,7 +183,10 @@ def run_scenario(mod, sc: dict, keep: bool = False) -> Outcome:
             out.info = json.loads(jdump(v.info))
             ctx.log("VIOLATION", v.cls)
         except Rejected as r:
-            out.error = f"rejected: {r}"
+            # outside the generator's stated domain: counted, neither verdict nor error
+            ctx.observations["rejected-out-of-domain"] += 1
+            ctx.log("REJECTED", str(r)[:80])
+            ctx.probes.clear()
         except (SimCrash, SimLivelock) as e:
             # a crash / livelock that escaped the property's own handling
             out.error = f"escaped {type(e).__name__}: {e}\n{traceback.format_exc()}"
